@@ -134,9 +134,24 @@ def check(ctx: Ctx) -> list[RuleResult]:
     r3 = RuleResult("R3", "version read dominates the first fragment request", "on every path to get_fragment(), the change counter was read with I/O (did_io or _schedule_version(force_io=True))", min_instances=1)
     gs = repo.func("ramses_rf.system.schedule.Schedule._get_schedule")
     cfg = ctx.cfg(gs, pol)
-    frag_nodes = [n for n in cfg.nodes if n.kind == "stmt" and contains_call(n.ast, lambda c: isinstance(c.func, ast.Name) and c.func.id == "get_fragment")]
+    # the fragment request: a call of whatever (closure or method) builds Command.get_schedule_fragment, or that call itself
+    from .common import module_scope, pool
+
+    def _requests_fragment(g) -> bool:
+        return any(isinstance(n, ast.Call) and isinstance(n.func, ast.Attribute) and n.func.attr == "get_schedule_fragment" for _g, n in pool([g] + list(g.nested.values())))
+
+    senders = {g.name for g in module_scope(ctx, gs) if g is not gs and _requests_fragment(g)}
+    if not senders and not _requests_fragment(gs):
+        raise AnalysisError("Schedule._get_schedule no longer reaches Command.get_schedule_fragment")
+
+    def _is_frag_call(c: ast.Call) -> bool:
+        if isinstance(c.func, ast.Name) and c.func.id in senders:
+            return True
+        return isinstance(c.func, ast.Attribute) and (c.func.attr in senders or c.func.attr == "get_schedule_fragment")
+
+    frag_nodes = [n for n in cfg.nodes if n.kind == "stmt" and not isinstance(n.ast, (ast.FunctionDef, ast.AsyncFunctionDef)) and contains_call(n.ast, _is_frag_call)]
     if not frag_nodes:
-        raise AnalysisError("no get_fragment() call in Schedule._get_schedule")
+        raise AnalysisError("no fragment request in Schedule._get_schedule")
     did_io_def = [n for n in own_nodes(gs.node) if isinstance(n, ast.Assign) and "did_io" in norm(n.targets[0]) and "_is_dated" in norm(n.value)]
     if not did_io_def:
         raise AnalysisError("did_io is no longer taken from _is_dated()")
@@ -231,24 +246,26 @@ def check(ctx: Ctx) -> list[RuleResult]:
     # ---- R4 ---------------------------------------------------------------------------
     r4 = RuleResult("R4", "overheard fragments are merged only under a lock test", "Schedule._handle_msg updates the payload set only under a test of tcs.zone_lock_idx", min_instances=1)
     hm = repo.func("ramses_rf.system.schedule.Schedule._handle_msg")
-    cfg2 = ctx.cfg(hm, pol)
-    ups = [n for n in cfg2.nodes if n.kind == "stmt" and contains_call(n.ast, method_call("_update_payload_set"))]
-    if not ups:
+    from .common import edge_implies, expand, facts_at, short_circuit_facts
+
+    ups_calls = [n for n in own_nodes(hm.node) if isinstance(n, ast.Call) and isinstance(n.func, ast.Attribute) and n.func.attr == "_update_payload_set"]
+    if not ups_calls:
         raise AnalysisError("no _update_payload_set() call in Schedule._handle_msg")
-    for u in ups:
+    # "this zone does not hold the transfer lock" must be known at the merge, however the guard is spelled (compound test, early
+    # returns, nested ifs, operands either way round)
+    goal = ast.parse("self.tcs.zone_lock_idx != self.idx", mode="eval").body
+    for c in ups_calls:
         r4.instances += 1
         r4.nontrivial += 1
-        guards = [t for t in cfg2.nodes if t.kind == "test" and "zone_lock_idx" in norm(t.ast) and cfg2.edge_dominates(t, "true", u)]
-        ok = False
-        for t in guards:
-            # the test must compare the lock owner with this zone: `... zone_lock_idx != self.idx` (not holder) on the true edge
-            for c in ast.walk(t.ast):
-                if isinstance(c, ast.Compare) and "zone_lock_idx" in norm(c) and isinstance(c.ops[0], (ast.NotEq, ast.IsNot, ast.Is, ast.Eq)):
-                    ok = True
-        if ok:
-            r4.ok({"site": norm(u.ast)[:70], "guard": norm(guards[0].ast)[:90]})
+        st = c
+        while not isinstance(st, ast.stmt):
+            st = st.parent  # type: ignore[attr-defined]
+        facts = short_circuit_facts(c) + facts_at(st)
+        hit = [f"`{norm(t)[:70]}` is {v}" for t, v in facts if edge_implies(expand(hm.node, t, pure_only=False), v, goal)]  # type: ignore[arg-type]
+        if hit:
+            r4.ok({"site": norm(st)[:70], "known_because": hit})
         else:
-            r4.fail(f"{hm.short}:unguarded-update", hm.loc(u.ast), "an overheard fragment is merged into the payload set without testing who holds the transfer lock")
+            r4.fail(f"{hm.short}:unguarded-update", hm.loc(c), "an overheard fragment is merged into the payload set without `self.tcs.zone_lock_idx != self.idx` being known there (the zone that holds the transfer lock would mix an overheard fragment into the set its own get/set is building)")
     out.append(r4)
     return out
 
